@@ -152,7 +152,7 @@ func (fr *Frame) format(fmtV ssa.Value, args []ssa.Value, known bool) *Term {
 	if !ok || !known {
 		if fr.fmtSlice != nil {
 			f := w.ufunc("sprintfU", []string{"String", "Slice", arraySort("Int", "Any")}, "String")
-			h := fr.cur.Get(heapSliceName("Any"), arraySort("Int", arraySort("Int", "Any")))
+			h := fr.cur.Get("S.any", arraySort("Int", arraySort("Int", "Any")))
 			sl := fr.val(fr.fmtSlice)
 			return A(f, fr.val(fmtV), sl, Select(h, A("s_base", sl)))
 		}
@@ -238,7 +238,7 @@ func (fr *Frame) formatArg(verb string, a ssa.Value) *Term {
 			return A(w.ufunc("itoa", []string{"Int"}, "String"), fr.val(inner))
 		}
 	}
-	f := w.ufunc("fmt_"+mangle(verb), []string{"Any"}, "String")
+	f := w.ufunc("spec_fmt_"+mangle(verb), []string{"Any"}, "String")
 	return A(f, fr.val(a))
 }
 
@@ -629,9 +629,9 @@ func (fr *Frame) havocAssigns(fc *FuncContract, env *Env, st *State) {
 			}()
 			for _, tgt := range fr.assignTargets(a.Expr, env) {
 				if tgt.whole {
-					so := w.heapSorts[tgt.name]
+					so := w.heapSortOfName(tgt.name)
 					if so == "" {
-						so = fr.guessHeapSort(tgt.name)
+						enc.unsup("assigns of heap variable %s whose sort is unknown", tgt.name)
 					}
 					old := st.Get(tgt.name, so)
 					nv := enc.declare("hv_"+tgt.name, so)
@@ -768,7 +768,7 @@ func (fr *Frame) assignTargets(x ast.Expr, env *Env) []assignTarget {
 					env.fail("elems() of non-slice")
 				}
 				es := w.sortOf(stp.Elem())
-				name := heapSliceName(es)
+				name := heapSliceNameT(stp.Elem())
 				so := arraySort("Int", arraySort("Int", es))
 				env.heap(env.state, name, so)
 				return []assignTarget{{name: name, sort: so, ref: A("s_base", v.T)}}
@@ -824,7 +824,7 @@ func (fr *Frame) appendOp(ci ssa.CallInstruction, c *ssa.CallCommon) *Term {
 	sT := c.Args[0].Type().Underlying().(*types.Slice)
 	es := w.sortOf(sT.Elem())
 	arrS := arraySort("Int", es)
-	hname := heapSliceName(es)
+	hname := heapSliceNameT(sT.Elem())
 	s := fr.val(c.Args[0])
 	h := st.Get(hname, arraySort("Int", arrS))
 	// the appended elements: a spread slice, possibly built from a literal array in this function
@@ -892,7 +892,7 @@ func (fr *Frame) copyOp(ci ssa.CallInstruction, c *ssa.CallCommon) *Term {
 	}
 	es := w.sortOf(dT.Elem())
 	arrS := arraySort("Int", es)
-	hname := heapSliceName(es)
+	hname := heapSliceNameT(dT.Elem())
 	d, s := fr.val(c.Args[0]), fr.val(c.Args[1])
 	h := st.Get(hname, arraySort("Int", arrS))
 	n := enc.define("copy_n", "Int", Ite(Le(A("s_len", d), A("s_len", s)), A("s_len", d), A("s_len", s)))
@@ -926,7 +926,7 @@ func (fr *Frame) bridgeFormat(ci ssa.CallInstruction) {
 			continue
 		}
 		f := w.ufunc("sprintfU", []string{"String", "Slice", arraySort("Int", "Any")}, "String")
-		h := fr.cur.Get(heapSliceName("Any"), arraySort("Int", arraySort("Int", "Any")))
+		h := fr.cur.Get("S.any", arraySort("Int", arraySort("Int", "Any")))
 		sl := fr.val(c.Args[i+1])
 		fr.enc.assume(Eq(A(f, fr.val(c.Args[i]), sl, Select(h, A("s_base", sl))), fr.format(c.Args[i], args, true)), "format expansion of a constant format string")
 	}
